@@ -23,4 +23,29 @@ theorem goodness_no_fault_real (h : Hist ℝ) (hwf : h.WF) (hidx : IdxOK h) (hc 
   have := pow04_ge_one n hn
   omega
 
+/-! ## a concrete instance (non-vacuity of the goodness theorems): one value, one bin, expectation 1 -/
+
+noncomputable def h1 : Hist ℝ :=
+  { obs := #[1], nb := 1, w := 1, bmin := 0, bmax := 1, imin := 0, imax := 0, xmin := 0.5, xmax := 0.5, n := 1, x := #[], nalloc := 0,
+    phi := 0, cmin := 0, z := 0, nc := 1, no := 1, isFull := false, isDone := true, isSorted := false, isRounded := false, datasetIs := .complete }
+noncomputable def e1 : Expect ℝ := { expect := some #[1], emin := 0, tailbase := 0, tailmass := 1, isTailfit := false }
+
+/-- non-vacuity for `goodness_accounts`: one value, one bin, expectation 1: the sweep produces one re-bin holding that value -/
+theorem goodness_example : ∃ g bins, h1.goodness e1 0 = .val (g, bins) ∧ bins ≠ [] ∧ binsObs bins = 1 := by
+  have hp : Num.pow (1 : ℝ) (0.4 : ℝ) = 1 := by
+    show Real.rpow (1 : ℝ) (0.4 : ℝ) = 1
+    simp
+  have ht : Num.toInt (1 : ℝ) = 1 := by
+    show (if (0 : ℝ) ≤ 1 then ⌊(1 : ℝ)⌋ else ⌈(1 : ℝ)⌉) = 1
+    simp
+  unfold Hist.goodness h1 e1
+  simp only [Bool.false_and, Bool.false_eq_true, if_false]
+  simp [goodnessCount, getObs, hp, ht, rebinLoop, getExp, Num.geb, Num.leb, binsObs]
+
+theorem h1_wf : h1.WF ∧ IdxOK h1 ∧ 0 ≤ h1.cmin ∧ (∀ ex, e1.expect = some ex → (ex.size : Int) = h1.nb) := by
+  refine ⟨⟨rfl, by decide, by decide, ?_, ?_⟩, Or.inr ⟨by decide, by decide, by decide⟩, by decide, ?_⟩
+  · intro h; cases h
+  · intro h; cases h
+  · intro ex hex; simp only [e1, Option.some.injEq] at hex; rw [← hex]; rfl
+
 end EaselModel.Stats
